@@ -142,7 +142,7 @@ RULE = ('cell enumeration: %d side-effect-free contexts (guard, guard conjunct, 
         'arithmetic / index / call argument / inline-if / builtin; calls of a writer whose write sits in the body, an if or else '
         'branch, an if/for/while/do condition, a for init/step, for/while/do/iteration bodies, a nested block, a return '
         'expression, after an early return, in a call argument; call chains of depth 1..4; writes through non-const reference '
-        'parameters incl. arrays, fields, forwarding and loops). Each cell gives a model W with the write and a twin R where '
+        'parameters incl. arrays, fields, forwarding and loops; in the query contexts also calls of template-local writers through a process, P.wf()). Each cell gives a model W with the write and a twin R where '
         'the write is replaced by a read of the same shape (of constants, so that compile-time contexts stay legal) or by a '
         'write to the callee\'s own locals / by-value parameters. Oracle: W is rejected (>= 1 error on the document or the '
         'query), R is accepted (no error). A stride of the cells (quick: every 9th, thorough: every 2nd, rotating) is additionally spliced into larger generated models (gen_model.py hosts with all identifiers renamed: other declarations, templates and processes around the cell) and judged the same way. Non-trivial: every cell (each has a W that differs from its R); distinct = (context, form, host).')
@@ -156,6 +156,7 @@ def build_cells():
             out.append((cname, 'direct:' + fname, '', W, '', R))
         for (fname, wdecl, rdecl, WE, RE) in call_forms():
             out.append((cname, fname, wdecl, WE, rdecl, RE))
+    out += process_call_cells(C)
     return C, out
 
 
@@ -163,7 +164,31 @@ def assemble(C, cname, gextra, E):
     kw, qs = C[cname](E)
     kw = dict(kw)
     gpost = kw.pop('gpost', '')
+    if isinstance(gextra, dict):      # a cell that also needs template-local declarations / its own system line
+        kw.update({k: v for k, v in gextra.items() if k != 'g'})
+        gextra = gextra.get('g', '')
     return cells.model(gdecl=BASE + gextra + gpost, **kw), qs
+
+
+def process_call_cells(C):
+    """queries that call a function of a process: P.wf() with wf declared in the template (it writes a global, a template variable, or calls on)"""
+    forms = [('writes-global', 'int wf() { v = 1; return 1; } ', 'int wf() { return cv; } '),
+             ('writes-template-variable', 'int tv; int wf() { tv = 1; return 1; } ', 'int tv; int wf() { return cv; } '),
+             ('increments-global-in-loop', 'int wf() { int k; for (k = 0; k < 2; k++) { v++; } return 1; } ', 'int wf() { int k; int l = 0; for (k = 0; k < 2; k++) { l++; } return l; } '),
+             ('call-chain', 'int wf0() { v = 1; return 1; } int wf() { return wf0(); } ', 'int wf0() { return cv; } int wf() { return wf0(); } '),
+             ('calls-global-writer', 'int wf() { return gwf(); } ', 'int wf() { return grf(); } ')]
+    out = []
+    for cname in C:
+        if not cname.startswith('query'):
+            continue
+        for style, kw, E in [('template-as-process', dict(system='system P;'), 'P.wf()'), ('instance', dict(inst='Q = P();', system='system Q;'), 'Q.wf()'),
+                             ('two-instances', dict(inst='Q = P(); R = P();', system='system Q, R;'), 'R.wf()')]:
+            if cname in ('query-safety-conjunct', 'query-leadsto') and style != 'template-as-process':
+                continue      # these two contexts name the location P.L0
+            for fname, wt, rt in forms:
+                g = 'int gwf() { v = 1; return 1; } int grf() { return cv; } '
+                out.append((cname, 'process-call:%s:%s' % (fname, style), dict(kw, g=g, tdecl=wt), E, dict(kw, g=g, tdecl=rt), E))
+    return out
 
 
 def worker(chk, wi, nw):
@@ -186,7 +211,7 @@ def worker(chk, wi, nw):
             stats.case(cname + '|' + fname + ('|' + items[2 * k][0] if embedded else ''), nontrivial=True,
                        classes=['context:' + cname, 'form:' + fam, 'W:' + ('rejected' if cells.rejected(w) else 'ACCEPTED'),
                                 'W-message:' + ('side-effect' if se else 'other')] + extra_classes,
-                       sample={'context': cname, 'form': fname, 'W': WE, 'W_decl': wdecl[:120], 'embedded': embedded,
+                       sample={'context': cname, 'form': fname, 'W': WE, 'W_decl': str(wdecl)[:120], 'embedded': embedded,
                                'W_errors': (w['errors'] + [m for q in w['query_errors'] for m in q])[:2]})
             if w['crash'] or r['crash']:
                 stats.extra['crashes_seen_(C01)'] += 1
